@@ -50,6 +50,13 @@ def gen_query(rnd, tname):
 def gen_case(rnd):
     depth = rnd.choice([2, 2, 3])
     data = gen_nested(rnd, depth)
+    if rnd.random() < 0.15:
+        # the array of arrays is produced by the FROM selector itself (`each` over the rows' nested arrays)
+        outer = [{"id": i, "items": gen_rows(rnd)} for i in range(rnd.randint(0, 3))]
+        q = gen_query(rnd, "m")
+        q[4] = tablesel(rnd.choice(["t[each].items", "t[(0:2)].items", "t.items"]))
+        return mk_case({"t": outer}, q, mode="seq", tag="from-selector", consts={"min": rnd.choice([1, 2, 3]), "tag": "T"},
+                       vars={"min": rnd.choice([2, 3])})
     q = gen_query(rnd, "m")
     c = mk_case({"m": data}, q, mode="seq", tag="depth%d" % depth, consts={"min": rnd.choice([1, 2, 3]), "tag": "T"},
                 vars={"min": rnd.choice([2, 3])})
@@ -68,6 +75,8 @@ def leaves(x):
 def nontrivial(c, g, l):
     if g["r"] != "ok":
         return False
+    if "m" not in c["doc"]:
+        return len(c["doc"]["t"]) >= 2
     inner = [x for x in c["doc"]["m"] if x]
     return len(inner) >= 2 and canon(dec_val(g["v"])) != canon(dec_val(enc_val(c["doc"]["m"])))
 
@@ -91,8 +100,8 @@ def metamorphic(chk, results):
         if g.get("r") != "ok":
             continue
         q = c["q"]
-        if q[2]:
-            continue  # DISTINCT does not distribute over concatenation
+        if q[2] or "m" not in c["doc"]:
+            continue  # DISTINCT does not distribute over concatenation; the metamorphic runs use the `m` documents
         arrays = flat_arrays(c["doc"]["m"])
         start = len(reqs)
         for arr in arrays:
